@@ -2,7 +2,8 @@
     Property theorems only, about the per-window methods REGENERATED from the source (Gen/GenScalars.v;
     translation validated by correspondence K5).  [eql] = elementwise equality of rationals. *)
 From Coq Require Import QArith Qabs List Bool String.
-From IV Require Import QL Dist Ecdf QListFacts GenUtils GenScalars RatLS C16_compose C03_proofs C02_proofs C04_proofs C01_proofs C09_proofs RatLS_proofs.
+From Coq Require Import Permutation.
+From IV Require Import QL Dist Ecdf QListFacts GenUtils GenScalars RatLS C16_compose C03_proofs C02_proofs C04_proofs C01_proofs C09_proofs RatLS_proofs C16_sortlike C01_nonparam.
 Import ListNotations.
 Open Scope Q_scope.
 
@@ -61,3 +62,20 @@ Theorem C01_ratls_location_scale :
 Proof. exact (conj ratls_cdf_form (conj ratls_ppf_form (conj Q0_F0 (conj Q0_proper ratls_mean_loc)))). Qed.
 Print Assumptions C01_ratls_location_scale.
 
+
+(** non-parametric QuantileMapping (step ECDF / inverted CDF): debiasing the reference period itself with equally
+    long, tie-free samples returns exactly the observed values in the rank order of cm_hist -- the output has the
+    observed mean with NO residual (for unequal lengths the statement of the property is "a small fraction":
+    searched on the implementation) *)
+Theorem C01_qm_nonparametric_reference_period : forall (P : Type) (D : dist P) thr obs hist,
+  List.length obs = List.length hist -> tie_free hist -> hist <> [] ->
+  qm_apply_on_window "no_detrending" "nonparametric" D thr obs hist hist = Some (sort_like obs hist).
+Proof. exact @qm_nonparam_reference_period. Qed.
+Print Assumptions C01_qm_nonparametric_reference_period.
+
+Theorem C01_qm_nonparametric_no_residual_bias : forall (P : Type) (D : dist P) thr obs hist,
+  List.length obs = List.length hist -> tie_free hist -> hist <> [] ->
+  exists out, qm_apply_on_window "no_detrending" "nonparametric" D thr obs hist hist = Some out /\
+              Permutation out obs /\ QL.qmean out = QL.qmean obs.
+Proof. exact @qm_nonparam_no_residual_bias. Qed.
+Print Assumptions C01_qm_nonparametric_no_residual_bias.
